@@ -91,6 +91,10 @@ def run(ctx):
         raise core.Inconclusive("TLC exported too few fault sequences (%d)" % len(behs))
     # the fault sequences that separate a correct cluster loop from one with a known hazard (the model with the hazard
     # switch on fails to converge after them) are replayed first, the rest of the budget is a seeded sample
+    eres = ctx.tlc("Topology", "Topology_hazard_events.cfg", workers=4, timeout=600, count=False, name="topology-hazard-events")
+    ctx.notes["events_block_refresh_breaks"] = eres.violated
+    if eres.violated != "RefreshNotBlockedByEvents":
+        raise core.Inconclusive("Topology.tla lost its sensitivity to the hazard EventsBlockRefresh (D23): %s" % eres.violated)
     hres = ctx.tlc("Topology", "Topology_hazard.cfg", workers=4, timeout=900, count=False, name="topology-hazard")
     haz = list(dict.fromkeys(rows(hres.output, "HAZ")))
     if len(haz) < 5:
